@@ -32,11 +32,109 @@ From RX.Proofs Require Import TextMachine HoistProofs RejectProofs CstMain CstTe
 From RX.Spec Require CstFull CstFullS4.
 From RX.Proofs Require CstNsView CstFullS4Main.
 From RX.Spec Require CstFull CstFullS4 CstFullS6.
-From RX.Proofs Require CstNsView CstFullS6Main CstFullRejSem CstFullS6Sanity KnownFindingsD15.
+From RX.Proofs Require CstNsView CstFullS6Main CstFullRejSem CstFullS6Sanity KnownFindingsD15 TextMachine KnownFindingsMore CstFullD15Main.
 Open Scope N_scope.
 
-(* ---- Proofs/KnownFindingsD15.v ---- *)
+(* ---- Proofs/KnownFindingsMore.v ---- *)
 Module G0.
+Import RX.Spec.CstFull. Import RX.Spec.CstFullS4. Import RX.Spec.CstFullS6. Import RX.Proofs.CstNsView. Import RX.Proofs.TextMachine. Import RX.Proofs.KnownFindingsMore.
+Theorem C07_d15b_refuted :
+  exists (pos : textpos) (x : document),
+         parse d15b_text opts = Err (InvalidAttributeValue pos) /\
+         parse d15b_inline opts = Ok x /\ view d15b_inline x = Some [elem "a" [(None, b "b", b "<")] 0].
+Proof. exact d15b_refuted. Qed.
+Print Assumptions C07_d15b_refuted.
+
+Theorem C07_lt_at_depth_refused :
+  forall text : bytes,
+       valid_utf8_b text = true ->
+       forall (vs : N) (bs rest more : bytes) (es : list entity) (lvl : nat) (t : text_buffer)
+         (ld : loop_detector),
+       CstULex.WV text vs (bs ++ [38; 108; 116; 59] ++ rest ++ more) ->
+       forallb (fun x : N => negb (x =? 38) && negb (x =? 60)) bs = true ->
+       CstULex.U8.Valid bs ->
+       0 < ld_depth ld ->
+       exists pos : textpos,
+         norm_attr_lvl text (S lvl) es (CstLex.sl vs (vs + blen (bs ++ [38; 108; 116; 59] ++ rest))) t ld =
+         Err (InvalidAttributeValue pos).
+Proof. exact lt_at_depth_refused. Qed.
+Print Assumptions C07_lt_at_depth_refused.
+
+Theorem C07_d30_refuted :
+  exists (v pre post : bytes) (d1 d2 : document),
+         let hoisted := hoisted_of v pre post in
+         let inline := inline_of v pre post in
+         parse hoisted opts = Ok d1 /\
+         parse inline opts = Ok d2 /\
+         view hoisted d1 = Some [elem "a" [] 1; CstNs.VText [97; 10; 98]] /\
+         view inline d2 = Some [elem "a" [] 1; CstNs.VText [97; 10; 10; 98]] /\
+         view hoisted d1 <> view inline d2.
+Proof. exact d30_refuted. Qed.
+Print Assumptions C07_d30_refuted.
+
+Theorem C07_d30_explained :
+  run_text_chunks true d30_chunks = norm_eol (concat (map chunk_bytes d30_chunks)) /\
+       run_text_chunks false d30_chunks = decode_chunks d30_chunks /\
+       norm_eol (concat (map chunk_bytes d30_chunks)) <> decode_chunks d30_chunks.
+Proof. exact d30_explained. Qed.
+Print Assumptions C07_d30_explained.
+
+Theorem C07_text_hoist_with_refs_refuted :
+  ~
+       (forall pre mid post : list chunk,
+        Forall (fun c : chunk => c <> CRef []) pre ->
+        Forall (fun c : chunk => c <> CRef []) mid ->
+        Forall (fun c : chunk => c <> CRef []) post ->
+        ~ (ends_cr pre /\ starts_lf (mid ++ post)) ->
+        ~ (ends_cr mid /\ starts_lf post) ->
+        run_text_chunks false pre ++ run_text_chunks true mid ++ run_text_chunks false post =
+        run_text_chunks false (pre ++ mid ++ post)).
+Proof. exact text_hoist_with_refs_refuted. Qed.
+Print Assumptions C07_text_hoist_with_refs_refuted.
+
+Theorem C07_d29_d30_outside_fragments :
+  E.charref_ok_in_value (CstTextLex.T.PCharRef false (b "38")) = false /\
+       E.charref_ok_in_value (CstTextLex.T.PCharRef false (b "10")) = false /\
+       CstFullRejSem.wf_syntax6 (ent_doc [E.EP (CstTextLex.T.PCharRef false (b "38"))]) = false /\
+       CstFullRejSem.wf_syntax6
+         (ent_doc
+            [CstFullS6Sanity.lit [97; 13]; E.EP (CstTextLex.T.PCharRef false (b "10"));
+             CstFullS6Sanity.lit (b "b")]) = false /\
+       CstFullRejSem.wf_syntax6 (ent_doc [CstFullS6Sanity.lit [97; 13; 98]]) = true /\
+       CstFullRejSem.wf_syntax6
+         (ent_doc
+            [CstFullS6Sanity.lit [97; 13]; E.EP (CstTextLex.T.PCharRef false (b "65"));
+             CstFullS6Sanity.lit (b "b")]) = true.
+Proof. exact d29_d30_outside_fragments. Qed.
+Print Assumptions C07_d29_d30_outside_fragments.
+
+End G0.
+
+(* ---- Proofs/CstFullD15Main.v ---- *)
+Module G1.
+Import RX.Spec.CstFull. Import RX.Spec.CstFullS4. Import RX.Spec.CstFullS6. Import RX.Proofs.CstNsView. Import RX.Proofs.CstFullS6Main. Import RX.Proofs.CstFullRejSem. Import RX.Proofs.KnownFindingsD15. Import RX.Proofs.CstFullD15Main.
+Theorem C07_d15_rejected :
+  forall (d : S6.doc) (opt : options) (cN : doc bpieces) (tr : list Detector.lop),
+       wf_syntax6 d = true ->
+       ninline6 d = Some (cN, tr) ->
+       S4.inline (S6.core d) = None ->
+       Detector.within_limits 10 255 0 0 tr = true ->
+       provisos_item (d_root cN) = true ->
+       forallb (ns_ok []) (den bmeaning (d_root cN)) = true ->
+       (S6.has_dtd d = true -> allow_dtd opt = true) ->
+       N.of_nat (Datatypes.length (CstFullRejMain.usem6 d cN)) < nodes_limit opt ->
+       N.of_nat (Datatypes.length (CstFullRejMain.usem6 d cN)) < u32_max ->
+       N.of_nat (vattrs (CstFullRejMain.usem6 d cN)) < u32_max ->
+       distinct_decls_le bmeaning cN (N.to_nat 65535) ->
+       1 + N.of_nat (ns_cost bmeaning cN) <= u32_max ->
+       exists pos : textpos, parse (S6.render d) opt = Err (InvalidAttributeValue pos).
+Proof. exact d15_rejected. Qed.
+Print Assumptions C07_d15_rejected.
+
+End G1.
+
+(* ---- Proofs/KnownFindingsD15.v ---- *)
+Module G2.
 Import RX.Spec.CstFull. Import RX.Spec.CstFullS4. Import RX.Spec.CstFullS6. Import RX.Proofs.CstNsView. Import RX.Proofs.CstFullS6Main. Import RX.Proofs.CstFullRejSem. Import RX.Proofs.CstFullS6Sanity. Import RX.Proofs.KnownFindingsD15.
 Theorem C07_d15_refuted :
   exists (c1 c2 : S6.doc) (x2 : document) (pos : textpos),
@@ -72,10 +170,10 @@ Theorem C07_ninline_extends :
 Proof. exact ninline_extends. Qed.
 Print Assumptions C07_ninline_extends.
 
-End G0.
+End G2.
 
 (* ---- Proofs/CstFullS4Main.v ---- *)
-Module G1.
+Module G3.
 Import RX.Spec.CstFull. Import RX.Spec.CstFullS4. Import RX.Proofs.CstNsView. Import RX.Proofs.CstFullS4Main.
 Theorem C07_parse_render_sem_full_s4 :
   forall (d : S4.doc) (opt : options),
@@ -102,10 +200,10 @@ Theorem C07_hoist_insensitive_full_s4 :
 Proof. exact hoist_insensitive_full_s4. Qed.
 Print Assumptions C07_hoist_insensitive_full_s4.
 
-End G1.
+End G3.
 
 (* ---- Proofs/CstEntCMain.v ---- *)
-Module G2.
+Module G4.
 Module E := CstEnt.
 Theorem C07_parse_render_sem_ent :
   forall (c : E.doc) (opt : options),
@@ -140,7 +238,7 @@ Theorem C07_inlined_equiv :
 Proof. exact inlined_equiv. Qed.
 Print Assumptions C07_inlined_equiv.
 
-End G2.
+End G4.
 
 (* ---- Proofs/CstEntMain.v ---- *)
 Theorem C07_parse_render_sem_ent_partial :
@@ -322,7 +420,7 @@ Proof. exact attr_hoist_split_crlf. Qed.
 Print Assumptions C07_attr_hoist_split_crlf.
 
 (* ---- Proofs/RejectProofs.v ---- *)
-Module G5.
+Module G7.
 Local Notation token := Tokenizer.token.
 Theorem C07_find_entity_first :
   forall text es name e, find_entity text es name = Some e ->
@@ -343,4 +441,4 @@ Theorem C07_ok_refs_defined_first :
 Proof. exact ok_refs_defined_first. Qed.
 Print Assumptions C07_ok_refs_defined_first.
 
-End G5.
+End G7.
